@@ -8,15 +8,15 @@ SPEC = {
     "needs_plz": True,
     "level": "proof",
     "level_text": (
-        "Partial. Proved for all lists of cases and runs (Props/C26.lean): every case is in exactly one of passed / errored / failed / skipped / "
-        "flaky-only and 'tests run' is their sum (C26_partition_case, C26_partition); the verdict AllSucceeded is equivalent to 'no failed and no "
-        "errored case' when every case has an execution (C26_verdict_iff_no_failures); through doFlakeRun's loop the target passes exactly when every "
-        "case that ran has a successful or skipped execution in one of the at most `flakiness` executed runs, which form a prefix of the runs and stop "
-        "after the first all-green one (C26_passes_iff, C26_runs_within_allowance); appendResult gives one main execution plus one per flaky/rerun child "
-        "(C26_xml_case_executions). The property as stated is VIOLATED in four narrow classes, each with a Lean witness, a corpus witness and a "
-        "known-finding entry: the `flakes` counter also counts cases that never failed (C26_witness_two_buckets; C26_partition_partial says when the "
-        "displayed counters do partition); <testsuite> nested in <testsuite> loses its cases; bare <testcase> elements lose their names; a Go test without "
-        "result line is counted as passed. Parsing itself (encoding/xml, go-junit-report) is NOT modelled: correspondence only."
+        "Full for the summary and the verdict, correspondence for parsing. Proved for all lists of cases and runs (Props/C26.lean): every case is counted by "
+        "exactly one of the five displayed counters passed / errored / failed / skipped / flakes and 'tests run' is their sum (C26_partition_case, "
+        "C26_partition; a flake has at least two executions: C26_flake_has_retry); the verdict AllSucceeded is equivalent to 'no failed and no errored case' "
+        "when every case has an execution (C26_verdict_iff_no_failures); through doFlakeRun's loop the target passes exactly when every case that ran has a "
+        "successful or skipped execution in one of the at most `flakiness` executed runs, which form a prefix of the runs and stop after the first all-green "
+        "one (C26_passes_iff, C26_runs_within_allowance); appendResult gives one main execution plus one per flaky/rerun child (C26_xml_case_executions); "
+        "nested suites and bare test cases are reported completely and an unfinished Go test is an error (C26_nested_cases_reported, C26_bare_case_reported, "
+        "C26_go_unfinished_is_error - these hold for the code after the four fix: commits 1fbcce1, 0ae0df7, ace53fa, c753b62; the C26_old_* theorems record "
+        "what the old fact values meant). Parsing itself (encoding/xml, go-junit-report) is NOT modelled: correspondence only."
     ),
     "technique": "Lean proof about the counters, Add and the flake loop; go/ast facts for every counter condition, Add's matching rule, the loop shape, "
                  "appendResult's chain, the XML struct tags and the go result switch; differential run of the real parsers on rendered outcome sets",
@@ -40,6 +40,8 @@ SPEC = {
 }
 
 MUTATIONS = """
+After the fix phase: re-introducing a repaired defect (reverting c753b62 on a scratch copy) must be red again - see the end of this block.
+(The runs below were made before the fix phase, on the tree with the four defects still present.)
 Dry-runs on scratch copies (VERIF_REPO) with findings_inbox/C26.jsonl loaded; every run rebuilds plz from the copy:
  m1 Passes: `result.Skip() == nil` dropped                 -> exit 1: facts (17/18), 20 disagreements, failing inputs summary-mismatch and, through
                                                                `plz test`, e2e-summary-mismatch ("2 tests run; 2 passed, 1 skipped")
@@ -51,4 +53,7 @@ Dry-runs on scratch copies (VERIF_REPO) with findings_inbox/C26.jsonl loaded; ev
  m8 looksLikeJUnitXMLTestResults loses the "<test" prefix   -> exit 1: facts (xmlPrefixes), 21 disagreements, parsed-cases-mismatch + e2e-summary-mismatch
  m9 appendRerunError sets Failure instead of Error          -> exit 1: facts (appendSets), disagreements, parsed-cases-mismatch
  h1 harmless: conjuncts of the Passes condition reordered, loop variable renamed -> exit 0 (conditions are compared with sorted conjuncts and a canonical variable name)
+ r1 (after the fix phase) FlakyPasses reverted to `Success() != nil && len(Executions) > 1`   -> exit 1: C26_facts_ok, flaky_strict, C26_partition* no longer check
+                                                               (19/21) and the oracle reports 51 failing inputs of class flaky-count-includes-clean-reruns
+                                                               (printed as a VIOLATION with its input once that class is marked fixed in known_findings.json)
 """
